@@ -228,6 +228,33 @@ def build(tier, rng):
                 )
     groups.append(done(g))
 
+    # ---------------- a live scheme whose own hashes start with a marker character -------------------
+    g = Group(
+        "marker-collision",
+        "CryptContext.disable/enable",
+        "contexts listing mysql41 ('*' + 40 hex digits: the hash text itself starts with a unix_disabled marker) before / after "
+        "unix_disabled x passwords: the disabled string is not enabled, verifies nothing, stays disabled, and enable() gives back exactly the original",
+    )
+    for names in (["mysql41", "unix_disabled", "md5_crypt"], ["md5_crypt", "mysql41", "unix_disabled"]):
+        ctx = CryptContext(names)
+        for pw in ("pw", "", "x" * 20):
+            h = H.mysql41.hash(pw)
+            g.case((tuple(names), pw))
+            w = {"schemes": names, "original": h}
+            d = outcome(ctx.disable, h)
+            ok = d[0] == "ok" and isinstance(d[1], str)
+            g.check(ok, "marker-collision:mysql41:disable-failed", "disable() of a mysql41 hash failed", dict(w, outcome=repr(d)))
+            if not ok:
+                continue
+            d = d[1]
+            g.check(outcome(ctx.is_enabled, d) == ("ok", False), "marker-collision:mysql41:still-enabled", "disabled string reported enabled", dict(w, disabled=d))
+            for p in (pw, "", h, d):
+                g.check(outcome(ctx.verify, p, d) == ("ok", False), "marker-collision:mysql41:verifies", "a password verified against the disabled string", dict(w, disabled=d, password=p))
+            g.check(outcome(ctx.disable, d) == ("ok", d), "marker-collision:mysql41:disable-twice", "disabling twice changed the string", dict(w, disabled=d, outcome=repr(outcome(ctx.disable, d))))
+            e = outcome(ctx.enable, d)
+            g.check(e == ("ok", h), "marker-collision:mysql41:enable-not-original", "enable(disable(h)) != h for a hash that itself starts with a marker character", dict(w, disabled=d, outcome=repr(e)))
+    groups.append(done(g))
+
     # ---------------- hashers directly ------------------------------------------------------------
     g = Group(
         "disabled-hashers",
